@@ -73,6 +73,12 @@ type rSpec struct {
 	ValidateSession bool          `json:"validate_session"` // hsms.WithSessionIDValidation(true)
 	Linktest        time.Duration `json:"linktest"`         // >0: auto-linktest enabled with this interval (the peer answers every Linktest.req)
 	Mirror          string        `json:"mirror"`           // "linktest" | "select": the peer first answers that control request with a DATA secondary reusing its system bytes
+	// cold open: the connection is opened with OpenBackground while the peer is unreachable — the first ColdDials (at least 2)
+	// dial attempts are refused by the harness-owned dialer (the first by Open itself, the others by the reconnect loop Open
+	// starts WITHOUT passing through the NotConnected reaction), a counter snapshot is taken while the loop retries, then the
+	// peer appears (or, CloseCold, the connection is closed while still retrying)
+	ColdDials int  `json:"cold_dials,omitempty"`
+	CloseCold bool `json:"close_cold,omitempty"`
 }
 
 type rRun struct {
@@ -330,13 +336,38 @@ func runScenario(spec *rSpec) (*rHistory, []string, string) {
 	n := len(spec.Plans)
 	r.cancels = make([]context.CancelFunc, n)
 	r.hist.Calls = make([]rCallResult, n)
+	var coldAttempts, coldRefused atomic.Int64
+	var coldHold atomic.Bool
+	coldHold.Store(spec.ColdDials > 0)
 	{
 		r.peer.dialHook = func(gen int) error {
 			if gen >= 1 && r.conn != nil {
 				// a re-dial is made by the reconnect loop: the gauge must read >= 1 on that very goroutine
 				if v := r.conn.Metrics().Reconnecting(); v < 1 {
 					r.note("RETRY-GAUGE-NOT-POSITIVE: Reconnecting() = %d inside a reconnect dial", v)
+				} else if v > 1 {
+					r.note("RETRY-GAUGE-ABOVE-LIVE-LOOPS: Reconnecting() = %d inside a reconnect dial (one reconnect loop is running)", v)
 				}
+			}
+			if gen == 0 && spec.ColdDials > 0 {
+				k := coldAttempts.Add(1)
+				if k >= 2 && r.conn != nil {
+					// the first attempt is Open's own; every later one is made by the reconnect loop Open started
+					if v := r.conn.Metrics().Reconnecting(); v < 1 {
+						r.note("RETRY-GAUGE-NOT-POSITIVE: Reconnecting() = %d inside dial attempt %d of a cold open (made by the reconnect loop)", v, k)
+					} else if v > 1 {
+						r.note("RETRY-GAUGE-ABOVE-LIVE-LOOPS: Reconnecting() = %d inside dial attempt %d of a cold open (one reconnect loop is running)", v, k)
+					}
+				}
+				if coldHold.Load() {
+					coldRefused.Add(1)
+					st := rStamp()
+					r.mu.Lock()
+					r.hist.FailedDials = append(r.hist.FailedDials, st)
+					r.mu.Unlock()
+					return errors.New("harness: dial refused (peer not up yet)")
+				}
+				return nil
 			}
 			if gen >= 1 && int(r.failedDials.Load()) < spec.FailDials {
 				r.failedDials.Add(1)
@@ -394,15 +425,109 @@ func runScenario(spec *rSpec) (*rHistory, []string, string) {
 		respMu.Unlock()
 		ch <- f
 	}
+	// gauge sampler, running from before Open: neither gauge may ever be negative, the reconnecting gauge never above the
+	// number of live reconnect loops (at most one)
+	stopSampler := make(chan struct{})
+	var samplerWG sync.WaitGroup
+	samplerWG.Add(1)
+	go func() {
+		defer samplerWG.Done()
+		var minR, maxR int64
+		var noted [3]bool // one note per kind: the sampler runs every 50 µs
+		defer func() {
+			r.mu.Lock()
+			r.hist.RetryMin, r.hist.RetryMax = minR, maxR
+			r.mu.Unlock()
+		}()
+		for {
+			select {
+			case <-stopSampler:
+				return
+			default:
+			}
+			m := conn.Metrics()
+			if v := m.DataMsgInflightCount(); v < 0 && !noted[0] {
+				noted[0] = true
+				r.note("GAUGE-NEGATIVE inflight %d", v)
+			}
+			v := m.Reconnecting()
+			if v < 0 && !noted[1] {
+				noted[1] = true
+				r.note("GAUGE-NEGATIVE reconnecting %d", v)
+			}
+			if v > 1 && !noted[2] {
+				noted[2] = true
+				r.note("RETRY-GAUGE-ABOVE-LIVE-LOOPS: Reconnecting() = %d observed by the sampler (at most one reconnect loop can run)", v)
+			}
+			minR, maxR = min(minR, v), max(maxR, v)
+			time.Sleep(50 * time.Microsecond)
+		}
+	}()
 	octx, ocancel := context.WithTimeout(context.Background(), 10*time.Second)
-	err = conn.Open(octx, hsms.OpenWaitSelected)
+	mode := hsms.OpenWaitSelected
+	if spec.ColdDials > 0 {
+		mode = hsms.OpenBackground
+	}
+	err = conn.Open(octx, mode)
 	ocancel()
 	if err != nil {
+		close(stopSampler)
+		samplerWG.Wait()
 		r.peer.closeAll()
 		_ = conn.Close()
 		return nil, nil, "open: " + err.Error()
 	}
-	r.snap("selected")
+	closeCold := false
+	if spec.ColdDials > 0 {
+		// Open returned nil with the peer unreachable; its reconnect loop keeps dialling.  At least two refused attempts: the
+		// second one is provably made by the loop, so the loop is running when the snapshot is taken.
+		want := int64(max(spec.ColdDials, 2))
+		deadline := time.Now().Add(10 * time.Second)
+		for time.Now().Before(deadline) && coldRefused.Load() < want {
+			time.Sleep(200 * time.Microsecond)
+		}
+		if coldRefused.Load() < want {
+			r.note("cold open: only %d dial attempts within 10 s", coldRefused.Load())
+		}
+		if st := conn.State(); st != hsms.NotConnectedState {
+			r.note("cold open: state %v while every dial is refused", st)
+		}
+		r.snap("retrying-cold-open")
+		if spec.CloseCold {
+			closeCold = true
+		} else {
+			coldHold.Store(false) // the peer appears
+			deadline = time.Now().Add(10 * time.Second)
+			ok := false
+			for time.Now().Before(deadline) && !ok {
+				if g := r.peer.last(); g != nil {
+					select {
+					case <-g.selected:
+						ok = conn.State() == hsms.SelectedState
+					default:
+					}
+				}
+				if !ok {
+					time.Sleep(time.Millisecond)
+				}
+			}
+			if !ok {
+				close(stopSampler)
+				samplerWG.Wait()
+				r.peer.closeAll()
+				_ = conn.Close()
+				return nil, nil, "cold open: the link was not selected within 10 s after the peer appeared"
+			}
+			// the reconnect loop has returned once the generation is up
+			deadline = time.Now().Add(2 * time.Second)
+			for time.Now().Before(deadline) && conn.Metrics().Reconnecting() != 0 {
+				time.Sleep(200 * time.Microsecond)
+			}
+		}
+	}
+	if !closeCold {
+		r.snap("selected")
+	}
 
 	runWave := func(wave int) {
 		var wg sync.WaitGroup
@@ -434,29 +559,9 @@ func runScenario(spec *rSpec) (*rHistory, []string, string) {
 		}
 		return false
 	}
-	// gauge sampler: neither gauge may ever be negative; Reconnecting must be seen positive while dials fail
-	stopSampler := make(chan struct{})
-	var samplerWG sync.WaitGroup
-	samplerWG.Add(1)
-	go func() {
-		defer samplerWG.Done()
-		for {
-			select {
-			case <-stopSampler:
-				return
-			default:
-			}
-			m := conn.Metrics()
-			if v := m.DataMsgInflightCount(); v < 0 {
-				r.note("GAUGE-NEGATIVE inflight %d", v)
-			}
-			if v := m.Reconnecting(); v < 0 {
-				r.note("GAUGE-NEGATIVE reconnecting %d", v)
-			}
-			time.Sleep(50 * time.Microsecond)
-		}
-	}()
-	if spec.Seq {
+	if closeCold {
+		// closed while the reconnect loop of the cold open is still retrying: nothing else happens in this history
+	} else if spec.Seq {
 		// one call at a time, a counter snapshot after each (quiescent between calls)
 		for i := range spec.Plans {
 			pl := spec.Plans[i]
@@ -579,8 +684,6 @@ func runScenario(spec *rSpec) (*rHistory, []string, string) {
 		// stop mirroring before quiescence so that no mirrored data frame races the Close below
 		r.peer.mirrorLinktest.Store(false)
 	}
-	close(stopSampler)
-	samplerWG.Wait()
 	// quiescence: let the responders flush, then a barrier on the live generation
 	r.lateWG.Wait()
 	if g := r.peer.last(); g != nil && !g.closed.Load() {
@@ -614,10 +717,14 @@ func runScenario(spec *rSpec) (*rHistory, []string, string) {
 			}
 		}
 	}
-	r.snap("quiescent")
+	if !closeCold {
+		r.snap("quiescent")
+	}
 	r.hist.CloseCall[0] = rStamp()
 	_ = conn.Close()
 	r.hist.CloseCall[1] = rStamp()
+	close(stopSampler)
+	samplerWG.Wait()
 	r.snap("closed")
 	r.peer.closeAll()
 	for gi := 0; gi < r.peer.numGens(); gi++ {
